@@ -83,14 +83,6 @@ theorem receipts_root_eq_mth (H : HashFn) (hE : H [] = emptySum) (encoded : List
     receiptsRoot H encoded = .ok (mth H encoded) :=
   calculator_root_eq_mth H hE encoded hn
 
-/-- pushing `leaves` one by one into a storage-backed tree (`MerkleTree::push`) -/
-def treePushAll (H : HashFn) : Tree → List Bytes → Except Err Tree
-  | t, [] => .ok t
-  | t, d :: ds =>
-    match t.push H d with
-    | .error e => .error e
-    | .ok t' => treePushAll H t' ds
-
 theorem treePushAll_stk (H : HashFn) : ∀ (ds L : List Bytes) (t : Tree),
     Stk (mth H) 1 0 L t.nodes → t.leavesCount = L.length → L.length + ds.length < 2 ^ 63 →
     ∃ t', treePushAll H t ds = .ok t' ∧ Stk (mth H) 1 0 (L ++ ds) t'.nodes ∧ t'.leavesCount = (L ++ ds).length
